@@ -638,7 +638,7 @@ func (V *Verifier) solveRendered(o *Obligation, pass int) {
 		} else {
 			done := false
 			if pass == 1 && o.Bounded && o.Goal.Op == "=" {
-				if ok, out, el := sympyProve(o.Goal, time.Duration(V.opts.Timeout)*3*time.Second, strings.TrimSuffix(file, ".smt2")+".py"); ok {
+				if ok, out, el := sympyProve(o.Goal, o.JetHyp, time.Duration(V.opts.Timeout)*3*time.Second, strings.TrimSuffix(file, ".smt2")+".py"); ok {
 					res = solveResult{"unsat", "sympy", el, out}
 					done = true
 				} else {
@@ -673,7 +673,7 @@ func (V *Verifier) solveRendered(o *Obligation, pass int) {
 				}
 				first := <-ch
 				if o.Kind == "jet" && !(first.res.status == "sat" || first.res.status == "unsat") {
-					if ok, out, el := sympyProve(o.Goal, time.Duration(V.opts.Timeout)*3*time.Second, strings.TrimSuffix(file, ".smt2")+".py"); ok {
+					if ok, out, el := sympyProve(o.Goal, o.JetHyp, time.Duration(V.opts.Timeout)*3*time.Second, strings.TrimSuffix(file, ".smt2")+".py"); ok {
 						first.res = solveResult{"unsat", "sympy", first.res.time + el, out}
 					} else {
 						first.res.output += "; sympy: " + truncate(out, 200)
@@ -730,6 +730,9 @@ func (V *Verifier) solveRendered(o *Obligation, pass int) {
 	o.Solver = res.solver
 	o.Time = res.time
 	o.Output = res.output
+	if os.Getenv("GOVC_PROGRESS") != "" {
+		fmt.Fprintf(os.Stderr, "progress %-8s %6.2fs %-14s %s\n", res.status, res.time, res.solver, o.Name)
+	}
 	want := "unsat"
 	if o.Cover {
 		want = "sat"
@@ -1387,11 +1390,17 @@ func (o *Obligation) jetQuery() (string, []string, []*Term) {
 	eqs(o.Goal)
 	as = append(as, extra...)
 	as = append(as, mathAxiomInstances(as)...)
+	if o.Bounded {
+		as = cseTerms(as)
+	}
 	sc := &Script{Asserts: as}
 	text := sc.Render(preludeFor(as), nil)
 	si := collect(as)
 	var names []string
 	for n, s := range si.consts {
+		if strings.HasPrefix(n, "cse") {
+			continue
+		}
 		if s == SInt || s == SReal || s == SBool {
 			names = append(names, n)
 		}
@@ -1410,15 +1419,24 @@ func (o *Obligation) jetQuery() (string, []string, []*Term) {
 }
 
 func mentionsFn(t *Term, name string) bool {
-	if t.Op == "f:"+name {
-		return true
-	}
-	for _, a := range t.Args {
-		if mentionsFn(a, name) {
+	seen := map[*Term]bool{}
+	var rec func(t *Term) bool
+	rec = func(t *Term) bool {
+		if seen[t] {
+			return false
+		}
+		seen[t] = true
+		if t.Op == "f:"+name {
 			return true
 		}
+		for _, a := range t.Args {
+			if rec(a) {
+				return true
+			}
+		}
+		return false
 	}
-	return false
+	return rec(t)
 }
 
 // mathAxiomInstances: ground instances of the defining properties of exp / log / log1p / sqrt for the
